@@ -60,6 +60,15 @@ $(B)/oracle/opc.o: oracle/opc.cpp oracle/opc.h
 	@mkdir -p $(B)/oracle
 	$(CXX) $(STD) -O1 -g1 -c $< -o $@
 
+# host execution trampoline (no sanitizers: plain C / assembly)
+HOSTEXEC_OBJS := $(B)/hostexec/msc_s.o $(B)/hostexec/msc_c.o
+$(B)/hostexec/msc_s.o: hostexec/msc.S
+	@mkdir -p $(B)/hostexec
+	clang -c -O1 $< -o $@
+$(B)/hostexec/msc_c.o: hostexec/msc.c hostexec/msc.h
+	@mkdir -p $(B)/hostexec
+	clang -c -O1 $< -o $@
+
 include $(sort $(wildcard cfg/*.mk))
 
 .PHONY: all
